@@ -225,9 +225,6 @@ def __resolve_real_class_target(
         if symbol.location.defined_in == target.location.defined_in:
             return symbol
 
-    if candidates:
-        return candidates[0]
-
     return target
 
 
